@@ -230,6 +230,26 @@ func (e *integEngine) checkC08() {
 				return
 			}
 		}
+		// names that only some stage defines
+		for _, g := range e.w.AllGraphs() {
+			for _, o := range g.Stages {
+				for _, name := range sortedKeys(o.Env) {
+					if _, own := t.Env[name]; own {
+						continue
+					}
+					got, present := r.Info.Env[name]
+					if o == st {
+						if !present || got != o.Env[name] {
+							c.Violate("C08", "env-override", "%s, command %s: env %s=%q, want this stage's %q", where, r.Info.Key, name, got, o.Env[name])
+							return
+						}
+					} else if present {
+						c.Violate("C08", "env-override", "%s, command %s: sees env %s=%q, which only stage %s defines", where, r.Info.Key, name, got, o.Name)
+						return
+					}
+				}
+			}
+		}
 		// variables arrive as argv words NAME=value
 		args := map[string]string{}
 		for _, a := range r.Info.Args[4:] {
@@ -322,6 +342,11 @@ func GenOverrideWorld(ch *Choices, thorough bool) *IntegWorld {
 		t.Dir = "/vs/taskdir"
 	}
 	w.Tasks = []*TaskSpec{t}
+	if ch.Bool(1, 3, "named-context") {
+		// a named context is one object shared by every run of the task
+		w.Contexts = []*CtxSpec{{Name: "c0", NBefore: ch.Choose(2, "ncb"), NAfter: ch.Choose(2, "nca")}}
+		t.Context = "c0"
+	}
 	npipe := 1
 	if ch.Bool(1, 3, "two-pipelines") {
 		npipe = 2
@@ -367,6 +392,13 @@ func GenOverrideWorld(ch *Choices, thorough bool) *IntegWorld {
 			}
 			if ch.Bool(1, 4, "override-dir") {
 				s.Dir = "/vs/" + s.Name
+			}
+			if ch.Bool(1, 3, "stage-only-env") {
+				if s.Env == nil {
+					s.Env = map[string]string{}
+				}
+				// a name only this stage defines: nobody else may ever see it
+				s.Env["VS_ONLY_"+strings.ToUpper(s.Name)] = "only-" + s.Name
 			}
 			g.Stages = append(g.Stages, s)
 		}
